@@ -35,7 +35,7 @@ def big_pipe(ctx, verdict, cases, name="segsegx"):
                                                                                 "TRUE" if row["nr"] else "FALSE"))
         exprs.append(" /\\ ".join(parts) if parts else "TRUE")
         sigs.append("segseg|big|" + c["fam"])
-    return ec.apalache_obs(ctx, verdict, "SegSegX", exprs, cases, sigs, name, per_module=12 if ctx.quick else 40)
+    return ec.apalache_obs(ctx, verdict, "SegSegX", exprs, cases, sigs, name, per_module=12)
 
 
 def crossing_error(seg, row):
